@@ -31,6 +31,7 @@ def unit_groups(root, tier):
         name = "drv_" + parts[1]
         g.setdefault(name, []).append(p)
     g["wlcompile"] = [p for p in tests if p.endswith("/worklists-compile.cpp")]
+    g["pthreadbarrier"] = [p for p in src if p.endswith("/Barrier_Pthread.cpp")]
     g["core"] = src + tests + [p for k, v in sorted(g.items()) if k.startswith("drv_")
                                for p in v if os.path.basename(p).startswith("core_")]
     g["dist"] = (sorted(glob.glob(os.path.join(root, "libdist/src/*.cpp"))) +
@@ -82,14 +83,14 @@ class Ctx:
         self._fnwrap = {}
 
     # -------------------------------------------------------------- facts
-    def load(self, *groups, patterns=False, ndebug=True, dist=None):
+    def load(self, *groups, patterns=False, ndebug=True, dist=None, extra_flags=None):
         """facts of one or more unit groups (merged). In the thorough tier the
         whole `core` group is always included with the shared-memory groups."""
         if self.tier == "thorough" and any(
                 g in ("src", "tests") or g.startswith("drv_") for g in groups) and not any(
                 g in DIST_GROUPS or g.startswith("drv_dist") for g in groups):
             groups = tuple(dict.fromkeys(("core",) + groups))
-        k = (groups, patterns, ndebug)
+        k = (groups, patterns, ndebug, tuple(extra_flags or ()))
         if k in self.facts:
             return self.facts[k]
         allg = unit_groups(self.root, self.tier)
@@ -103,7 +104,7 @@ class Ctx:
         if dist is None:
             dist = any(g in DIST_GROUPS or g.startswith("drv_dist") for g in groups)
         fx = F.extract(units, root=self.root, files_re=files_regex(self.root),
-                       dist=dist, ndebug=ndebug, patterns=patterns)
+                       dist=dist, ndebug=ndebug, patterns=patterns, extra_flags=extra_flags)
         self.units_parsed += sum(1 for u in fx.units if u[1])
         for u, err in fx.failed_units:
             self.units_failed.append(u)
